@@ -105,6 +105,35 @@ func (c *Ctx) mapRangeVerdict(u FuncUnit, rs *ast.RangeStmt) (bool, string) {
 			if x.Init != nil && !okStmt(x.Init) {
 				return false
 			}
+			// a call of a function VALUE in the condition (`if !yield(p) { return }`): the callback
+			// receives the elements in the map's order — an iterator over a Go map is as unordered as the map
+			dyn := ""
+			ast.Inspect(x.Cond, func(m ast.Node) bool {
+				ce, ok := m.(*ast.CallExpr)
+				if !ok {
+					return true
+				}
+				if tv, ok := info.Types[ce.Fun]; ok && tv.IsType() {
+					return true
+				}
+				if id, ok := ast.Unparen(ce.Fun).(*ast.Ident); ok {
+					if _, isB := info.Uses[id].(*types.Builtin); isB {
+						return true
+					}
+					if v, isVar := info.Uses[id].(*types.Var); isVar {
+						if _, isSig := v.Type().Underlying().(*types.Signature); isSig {
+							dyn = id.Name
+						}
+					}
+				}
+				return true
+			})
+			if dyn != "" && !c.unorderedProducers()[u.Obj] {
+				why = "the loop hands each element to the function value `" + dyn + "` (a callback) in map order"
+				return false
+			}
+			// (an iterator this function returns: the order question moves to whoever ranges over it —
+			// see the consumer obligations of this rule)
 			if !okBlock(x.Body.List) {
 				return false
 			}
@@ -347,8 +376,70 @@ func sameSlotOnly(info *types.Info, rhs ast.Expr, slot *ast.IndexExpr) bool {
 	return types.ExprString(ast.Unparen(rhs)) == types.ExprString(slot)
 }
 
+// unorderedProducers: declared functions of the module that return an iterator (a function literal
+// taking a yield function) whose body ranges over a Go map and hands the elements to yield — the
+// sequence they produce is as unordered as the map.
+func (c *Ctx) unorderedProducers() map[*types.Func]bool {
+	if m, ok := c.memo["unorderedProducers"].(map[*types.Func]bool); ok {
+		return m
+	}
+	out := map[*types.Func]bool{}
+	for _, u := range c.Funcs(nil) {
+		if u.Decl == nil || u.Decl.Body == nil {
+			continue
+		}
+		info := u.Pkg.TypesInfo
+		ast.Inspect(u.Decl.Body, func(n ast.Node) bool {
+			ret, ok := n.(*ast.ReturnStmt)
+			if !ok {
+				return true
+			}
+			for _, r := range ret.Results {
+				lit, ok := ast.Unparen(r).(*ast.FuncLit)
+				if !ok || lit.Type.Params == nil {
+					continue
+				}
+				yields := map[types.Object]bool{}
+				for _, f := range lit.Type.Params.List {
+					for _, nm := range f.Names {
+						if o := info.Defs[nm]; o != nil {
+							if _, isSig := o.Type().Underlying().(*types.Signature); isSig {
+								yields[o] = true
+							}
+						}
+					}
+				}
+				if len(yields) == 0 {
+					continue
+				}
+				ast.Inspect(lit.Body, func(m ast.Node) bool {
+					rs, ok := m.(*ast.RangeStmt)
+					if !ok {
+						return true
+					}
+					if tv, ok := info.Types[rs.X]; !ok {
+						return true
+					} else if _, isMap := tv.Type.Underlying().(*types.Map); !isMap {
+						return true
+					}
+					for _, ce := range callsIn(rs.Body, false) {
+						if yields[identObj(info, ce.Fun)] {
+							out[u.Obj] = true
+						}
+					}
+					return true
+				})
+			}
+			return true
+		})
+	}
+	c.memo["unorderedProducers"] = out
+	return out
+}
+
 func (c *Ctx) mapRangeObligations(rule string, keep func(string) bool) []Obligation {
 	var obs []Obligation
+	producers := c.unorderedProducers()
 	for _, u := range c.Funcs(keep) {
 		info := u.Pkg.TypesInfo
 		ord := &ordinal{}
@@ -360,6 +451,19 @@ func (c *Ctx) mapRangeObligations(rule string, keep func(string) bool) []Obligat
 			tv, ok := info.Types[rs.X]
 			if !ok {
 				return true
+			}
+			// a range over an iterator of the module that walks a Go map (`for p := range reg.All()`)
+			// is a range over that map
+			if ce, isCall := ast.Unparen(rs.X).(*ast.CallExpr); isCall {
+				if f := originOf(Callee(info, ce)); f != nil && producers[f] {
+					construct := ord.next("range over the unordered iterator " + f.Name() + "()")
+					if ok, why := c.mapRangeVerdict(u, rs); ok {
+						obs = append(obs, mkOb(c, rule, u, construct, rs, Proved, why, true))
+					} else {
+						obs = append(obs, mkOb(c, rule, u, construct, rs, Undecided, FuncName(f)+" yields the entries of a Go map in the map's (random) order, and the effect of this loop may depend on it: "+why, true))
+					}
+					return true
+				}
 			}
 			if _, isMap := tv.Type.Underlying().(*types.Map); !isMap {
 				return true
